@@ -182,3 +182,11 @@ impl Emitter {
 pub fn hex(v: &[u8]) -> String {
     v.iter().map(|b| format!("{:02x}", b)).collect::<Vec<_>>().join("")
 }
+
+/// An io::Write target that accepts at most `k` octets per call (allowed by the io::Write
+/// contract: pipes, sockets, stream encoders): an encoder must produce the same octets on it.
+pub struct ShortWriter { pub out: Vec<u8>, pub k: usize }
+impl std::io::Write for ShortWriter {
+    fn write(&mut self, b: &[u8]) -> std::io::Result<usize> { let n = b.len().min(self.k.max(1)); self.out.extend_from_slice(&b[..n]); Ok(n) }
+    fn flush(&mut self) -> std::io::Result<()> { Ok(()) }
+}
